@@ -100,10 +100,85 @@ impl Model for M {
     }
 }
 
+/// xorshift words for the child probes (no chooser there)
+#[derive(Clone)]
+struct PlainRng(u64);
+impl rand::RngCore for PlainRng {
+    fn next_u32(&mut self) -> u32 {
+        self.next_u64() as u32
+    }
+    fn next_u64(&mut self) -> u64 {
+        self.0 ^= self.0 << 13;
+        self.0 ^= self.0 >> 7;
+        self.0 ^= self.0 << 17;
+        self.0
+    }
+}
+
+/// "add never panics for any k >= 1": k far above any stream length keeps every data point. Run in a child process (a sampler
+/// that sizes its buffer by k aborts on allocation failure instead of panicking).
+fn huge_k_probe_child(spec: &str) -> ! {
+    let mut it = spec.split(':');
+    let k: usize = it.next().and_then(|x| x.parse().ok()).unwrap_or_else(|| std::process::exit(2));
+    let mode = it.next().unwrap_or("add");
+    let mut r: ReservoirSampling<u64, PlainRng> = ReservoirSampling::new(k, PlainRng(0x9E3779B97F4A7C15));
+    let items: Vec<u64> = (100..110).collect();
+    match mode {
+        "add" => {
+            for &x in &items {
+                r.add(x);
+            }
+        }
+        "extend" => r.extend(items.clone()),
+        _ => {
+            r.add(1);
+            r.clear();
+            for &x in &items {
+                r.add(x);
+            }
+        }
+    }
+    if r.reservoir() != &items[..] || r.i() != items.len() || r.is_empty() {
+        println!("PROBE-WRONG reservoir {:?}, i = {} after 10 data points {:?}", r.reservoir(), r.i(), items);
+    } else {
+        println!("PROBE-OK");
+    }
+    std::process::exit(0);
+}
+
+fn huge_k_probes() -> (u64, Vec<Viol>) {
+    let mut viols = vec![];
+    let mut n = 0u64;
+    'outer: for k in [usize::MAX, usize::MAX / 2, isize::MAX as usize / 4, isize::MAX as usize / 8, 1usize << 48, 1usize << 40] {
+        for mode in ["add", "extend", "clear+add"] {
+            n += 1;
+            let what = match checks::childprobe::run("VERIF_C18_HUGE_K", &format!("{}:{}", k, mode)) {
+                checks::childprobe::Outcome::Ok => continue,
+                checks::childprobe::Outcome::Wrong(w) => w,
+                checks::childprobe::Outcome::Died(w) => w,
+            };
+            viols.push(Viol { property: "C18".into(), signature: "reservoir huge k".into(), message: format!("ReservoirSampling::<u64>::new(k = {}) + 10 data points ({}): {}", k, mode, what),
+                replay: json!({"structure": "ReservoirSampling<u64>", "k": k, "delivery": mode, "stream": "100..110", "expected": "the reservoir holds the 10 data points", "observed": what}) });
+            break 'outer;
+        }
+    }
+    (n, viols)
+}
+
 fn main() {
+    if let Ok(spec) = std::env::var("VERIF_C18_HUGE_K") {
+        huge_k_probe_child(&spec);
+    }
     let args = parse_args();
     let mut run = Runner::new("C18", &args.tier, "model_checking");
     let thorough = run.thorough();
+    {
+        let (n, vs) = huge_k_probes();
+        run.ev.set("huge_k_probes", json!(n));
+        for v in vs {
+            run.violation(v);
+        }
+    }
     let jobs: Vec<(usize, usize)> = if thorough { vec![(1, 20), (2, 22), (3, 24), (4, 25), (5, 24)] } else { vec![(1, 16), (2, 18), (3, 20), (4, 21)] };
     let res = par_map(&jobs, n_threads(), |&(k, horizon)| {
         let m = M { k, horizon, units: unit_alphabet() };
